@@ -62,6 +62,7 @@ func Run(o *drv.Out) {
 	execdrv.Guard(o, func() { corpusCheckpointHeight(o) })
 	execdrv.Guard(o, func() { corpusRestartPatterns(o) })
 	execdrv.Guard(o, func() { corpusReProposal(o) })
+	execdrv.Guard(o, func() { corpusSignatureCache(o) })
 	for ci := 0; ci < nCases; ci++ {
 		execdrv.Guard(o, func() { runCase(o, ci, nHeights, bigSends) })
 	}
@@ -756,6 +757,200 @@ func corpusReProposal(o *drv.Out) {
 	o.Sample("re-proposal-from-cached-proposal: four proposals from one cached mempool proposal (VDF a, a, b, none) each validate on the proposer and a replica; the last commits on all paths")
 }
 
+// corpusSignatureCache: scenario "forged-signature-re-executed". crypto.SignatureCache is process-wide
+// and outlives every Reset; the batch pre-check of ApplyTransactions is the only signature check of a
+// block. One chain, one height per member (scheme of the forged signature, batch index k = number of
+// valid transactions of mixed schemes ordered before it). At every height, starting from a cold cache:
+//
+//  1. the proposer P builds B1 from a mempool holding k valid transactions, the forged one and (odd k)
+//     one more valid one: the forged one is evicted
+//  2. a Byzantine block X = B1's header with the forged transaction inserted at batch index k is
+//     executed repeatedly on one process: V validates (cold) -> round interrupt -> V validates again ->
+//     R commits by replay -> P validates; then the cache is emptied and S handles it on the sync path.
+//     Every execution must give the verdict of the cold first one
+//  3. the forged transaction is submitted to P again, its mempool FSM is rebuilt twice, P builds B2: the
+//     same mempool content on the same state gives the same transactions as B1
+//  4. B2 commits on all paths (S on a cold cache again)
+//
+// Oracle: path agreement (C03:path-diverges:signature-cache-warm-vs-cold) and, in Chain.Propose for every
+// block of every scenario, "a transaction whose signature does not verify is never included".
+func corpusSignatureCache(o *drv.Out) {
+	o.Case("forged-signature-re-executed")
+	rng := rand.New(rand.NewSource(58))
+	net := node.NewNetwork(24, 4, nil, 16, node.Options{SchemeAccounts: 4})
+	defer net.Close()
+	c := execdrv.NewChain(o, net, rng, []int{16, 2, 8})
+	P, V, R, S := c.NewNode("P", 0), c.NewNode("V", 1), c.NewNode("R", -1), c.NewNode("S", -1)
+	// ed25519: 0,1,2 (account 3 is BLS), 4,5,6 ...
+	keysOf := map[string][]crypto.PrivateKeyI{
+		"ed25519":      {net.AcctKeys[0], net.AcctKeys[1], net.AcctKeys[2], net.AcctKeys[4], net.AcctKeys[5]},
+		"bls12381":     {net.AcctKeys[3], net.AcctKeys[7], net.AcctKeys[11]},
+		"secp256k1":    net.SecpKeys,
+		"ethsecp256k1": net.EthKeys,
+	}
+	order := []string{"ed25519", "secp256k1", "ethsecp256k1", "bls12381"}
+	type member struct {
+		scheme string
+		k      int
+	}
+	var members []member
+	for k := 0; k <= 9; k++ {
+		members = append(members, member{"ed25519", k})
+	}
+	members = append(members, member{"secp256k1", 3}, member{"ethsecp256k1", 5}, member{"bls12381", 2})
+	if o.Tier == "thorough" || o.Search {
+		for _, sch := range order[1:] {
+			for _, k := range []int{0, 1, 8, 9} {
+				members = append(members, member{sch, k})
+			}
+		}
+	}
+	fresh := 0
+	for mi, m := range members {
+		h := P.Height()
+		pre := P.StateDigest()
+		fail := func(desc string, p *execdrv.Proposal, extra map[string]any) {
+			info := replayInfo(o, c, h, p, "warm-vs-cold")
+			info["forged_scheme"], info["batch_index"] = m.scheme, m.k
+			for k, v := range extra {
+				info[k] = v
+			}
+			o.Fail("C03:path-diverges:signature-cache-warm-vs-cold", fmt.Sprintf("height %d, forged %s signature at batch index %d (behind %d valid transactions of mixed schemes): %s", h, m.scheme, m.k, m.k, desc), info)
+		}
+		node.ColdSignatureCache()
+		fee := uint64(40000)
+		var mp []node.MixTx
+		for i := 0; i < m.k; i++ {
+			ks := keysOf[order[(i+mi)%4]]
+			fee -= 100
+			fresh++
+			mp = append(mp, node.MixTx{Kind: "send:" + order[(i+mi)%4], Bytes: net.SendTx(ks[(i/4+mi)%len(ks)], net.FreshAddr(fresh), 1000, fee, h, ""), Expect: true})
+		}
+		fee -= 100
+		fresh++
+		fk := keysOf[m.scheme]
+		forged := node.CorruptSignature(net.SendTx(fk[(mi+2)%len(fk)], net.FreshAddr(fresh), 777, fee, h, ""))
+		mp = append(mp, node.MixTx{Kind: "fail:badsig:" + m.scheme, Bytes: forged})
+		if m.k%2 == 1 {
+			fresh++
+			mp = append(mp, node.MixTx{Kind: "send:ed25519", Bytes: net.SendTx(net.AcctKeys[6], net.FreshAddr(fresh), 1000, fee-100, h, ""), Expect: true})
+		}
+		// 1. first build, cold cache
+		c.Hold = true
+		b1, ok := c.ProposeVDF(P, mp, "produce", nil)
+		if !ok {
+			fail("ProduceProposal fails", &execdrv.Proposal{}, nil)
+			return
+		}
+		blk1 := new(lib.Block)
+		_ = lib.Unmarshal(b1.Block, blk1)
+		want := len(mp) - 1
+		if len(blk1.Transactions) != want {
+			o.Fail("C03:scenario-expectation-differs:forged-signature-re-executed", fmt.Sprintf("height %d: the first block has %d transactions, expected the %d valid ones", h, len(blk1.Transactions), want), replayInfo(o, c, h, b1, "produce"))
+			return
+		}
+		// 2. the Byzantine block: B1's header, the forged transaction inserted at batch index k
+		x := &lib.Block{BlockHeader: blk1.BlockHeader}
+		x.Transactions = append(append(append([][]byte{}, blk1.Transactions[:m.k]...), forged), blk1.Transactions[m.k:]...)
+		xBytes, e := lib.Marshal(x)
+		if e != nil {
+			panic(e)
+		}
+		xProp := net.Certify(b1.VS, xBytes, b1.Results, net.AllSigners(), lib.Phase_PROPOSE, b1.RC, P.Key)
+		xQC := net.Certify(b1.VS, xBytes, b1.Results, net.AllSigners(), lib.Phase_PRECOMMIT_VOTE, b1.RC, P.Key)
+		verdict := func(err lib.ErrorI) string {
+			if err == nil {
+				return "accepted"
+			}
+			return "rejected " + node.ErrCode(err)
+		}
+		node.ColdSignatureCache()
+		_, e1 := V.Validate(xProp, b1.RC)
+		cold := verdict(e1)
+		var got []string
+		_, e2 := V.Validate(xProp, b1.RC)
+		got = append(got, "V validates again after the round interrupt: "+verdict(e2))
+		got = append(got, "R commits by replay: "+verdict(R.HandlePeerBlock(xQC, false)))
+		_, e3 := P.Validate(xProp, b1.RC)
+		got = append(got, "P validates: "+verdict(e3))
+		node.ColdSignatureCache()
+		got = append(got, "S on the sync path, cold cache: "+verdict(S.HandlePeerBlock(xQC, true)))
+		o.Count("compared")
+		differs := e1 == nil
+		for _, g := range got {
+			if !strings.HasSuffix(g, ": "+cold) {
+				differs = true
+			}
+		}
+		if differs {
+			fail(fmt.Sprintf("the block that carries it (%d transactions under the header of the %d valid ones) is %s by V on a cold cache; the same block bytes executed again in the same process: %s", len(x.Transactions), want, cold, strings.Join(got, "; ")),
+				b1, map[string]any{"byzantine_block": hex.EncodeToString(xBytes), "forged_tx": hex.EncodeToString(forged)})
+		}
+		for _, nd := range []*node.Node{V, R, S, P} {
+			if nd.Height() != h {
+				fail(fmt.Sprintf("a node committed the block carrying the forged transaction (height %d)", nd.Height()), b1, map[string]any{"byzantine_block": hex.EncodeToString(xBytes)})
+				return
+			}
+		}
+		// 3. the forged transaction comes back; the proposer's mempool FSM is rebuilt twice
+		if err := P.Submit(forged); err != nil {
+			o.Count("submit-rejected:" + node.ErrCode(err))
+		}
+		_ = P.CheckMempool()
+		if err := P.Submit(forged); err != nil {
+			o.Count("submit-rejected:" + node.ErrCode(err))
+		}
+		_ = P.CheckMempool()
+		b2, ok := c.ProposeVDF(P, []node.MixTx{{Kind: "fail:badsig-resubmitted", Bytes: forged}}, "produce", nil)
+		if !ok {
+			fail("the second ProduceProposal fails", b1, nil)
+			return
+		}
+		blk2 := new(lib.Block)
+		_ = lib.Unmarshal(b2.Block, blk2)
+		o.Count("compared")
+		if len(blk2.Transactions) != len(blk1.Transactions) || !bytes.Equal(blk2.BlockHeader.StateRoot, blk1.BlockHeader.StateRoot) || !bytes.Equal(blk2.BlockHeader.TransactionRoot, blk1.BlockHeader.TransactionRoot) {
+			fail(fmt.Sprintf("the proposer built a block of %d transactions (state root %x) from this mempool on a cold cache and, after the forged transaction was evicted and submitted again, a block of %d transactions (state root %x) from the same mempool content on the same state", len(blk1.Transactions), blk1.BlockHeader.StateRoot[:6], len(blk2.Transactions), blk2.BlockHeader.StateRoot[:6]),
+				b2, map[string]any{"forged_tx": hex.EncodeToString(forged)})
+			return
+		}
+		// 4. B2 on all paths
+		okP := c.Validate(P, b2)
+		resP := ""
+		if okP {
+			resP = c.Commit(P, b2, false)
+		}
+		post := P.StateDigest()
+		o.Op(fmt.Sprintf("def %d %s %s %s %s", h, pre, b2.ID, post, b2.Obs), "def")
+		if b1.ID != b2.ID {
+			o.Op(fmt.Sprintf("def %d %s %s %s %s", h, pre, b1.ID, post, b1.Obs), "def")
+		}
+		c.Release()
+		wantRes := fmt.Sprintf("ok state=%s obs=%s", post, b2.Obs)
+		if !okP || resP != wantRes {
+			fail(fmt.Sprintf("the proposer's own second block: validate ok=%v, commit %q", okP, resP), b2, nil)
+			return
+		}
+		if !c.Validate(V, b2) {
+			fail("a replica rejects the proposer's second block", b2, nil)
+			return
+		}
+		paths := []struct{ path, got string }{{"validate+commit-cached", c.Commit(V, b2, false)}, {"commit-replay", c.Commit(R, b2, false)}}
+		node.ColdSignatureCache()
+		paths = append(paths, struct{ path, got string }{"sync on a cold cache", c.Commit(S, b2, true)})
+		for _, x := range paths {
+			o.Count("compared")
+			if x.got != wantRes {
+				fail(fmt.Sprintf("path %q gives %q, the proposer's header/results/state are %q", x.path, x.got, wantRes), b2, nil)
+				return
+			}
+		}
+		o.Count(fmt.Sprintf("forged-at-batch-index:%s:%d", m.scheme, m.k))
+		o.Nontrivial(fmt.Sprintf("%s|%s|%d", o.CurCase(), m.scheme, m.k))
+	}
+	o.Sample(fmt.Sprintf("forged-signature-re-executed: %d members (forged ed25519 at batch indices 0..9, secp256k1, eth, BLS); the block carrying the forged transaction gets the cold verdict on every re-execution; the re-submitted forged transaction is never included", len(members)))
+}
+
 // step is one height of the chain as the proposer saw it.
 type step struct {
 	h         uint64
@@ -775,7 +970,7 @@ func runCase(o *drv.Out, ci, nHeights int, bigSends []int) {
 	for i := range stakes {
 		stakes[i] = uint64(1_000_000_000 + rng.Intn(9)*500_000_000)
 	}
-	opts := node.Options{}
+	opts := node.Options{SchemeAccounts: 6} // ordinary senders of all four signature schemes
 	smallBlocks := ci%3 == 2
 	if smallBlocks {
 		// room for roughly 106 sends: larger mempools overflow the block (oversize on the proposer path)
@@ -818,7 +1013,7 @@ func runCase(o *drv.Out, ci, nHeights int, bigSends []int) {
 			replay = lastIncluded[:1+rng.Intn(min(3, len(lastIncluded)))]
 		}
 		st := &step{h: h, hi: hi, pre: P.StateDigest()}
-		txs := c.Mix.Mix(node.MixOpts{Height: h, Sends: sz.sends, Failing: sz.failing, Conflicts: sz.conflicts, ValOps: hi%2 == 1, Replay: replay})
+		txs := c.Mix.Mix(node.MixOpts{Height: h, Sends: sz.sends, Failing: sz.failing, Conflicts: sz.conflicts, ValOps: hi%2 == 1, Replay: replay, ResubmitForged: hi >= 1})
 		// the alternative proposer builds a different block on the same prefix first
 		if hi%2 == 0 && !sequential {
 			altTxs := c.Mix.Mix(node.MixOpts{Height: h, Sends: 2 + rng.Intn(20), Failing: rng.Intn(3)})
